@@ -11,9 +11,18 @@ def main():
 
     def body():
         e = 'VerifHarness_C18_Updates'
-        prog, secs = driver.load('poseidon_tree', 'poseidon_tree', HARNESS, [e, 'VerifHarness_C18_Deep'])
+        prog, secs = driver.load('poseidon_tree', 'poseidon_tree', HARNESS, [e, 'VerifHarness_C18_Deep', 'VerifHarness_C18_IndexBit'])
         run.log('SSA of %d functions built in %.1fs' % (len(prog['funcs']), secs))
-        cfgs = [(1, 3), (2, 2), (3, 2)] if not run.thorough else [(1, 4), (2, 3), (3, 3), (4, 2), (5, 2)]
+        # unit lemma on the index bit for all depths 1..32 (replayed natively with the model's depth and index)
+        res, ex = driver.run_entry(run, prog, 'VerifHarness_C18_IndexBit', stubs.make_stubs(), loop_bound=40)
+        driver.report(run, ex, 'poseidon_tree', 'poseidon_tree', HARNESS, 'VerifHarness_C18_IndexBit', res)
+        if any(r.status in ('assert', 'panic') for r in res) and not run.violations:
+            failed, panicked, out = driver.replay_native('poseidon_tree', 'poseidon_tree', HARNESS, 'VerifHarness_C18_Deep', {}, timeout=1200)
+            run._deep_done = True
+            if failed or panicked:
+                run.violation('index bit lemma fails and the native run over depths 1..32 fails: %s' % (sorted(set(failed))[:3] or 'panic'),
+                              {'harness': 'VerifHarness_C18_Deep', 'native_failed': sorted(set(failed)), 'native_output_tail': out[-1200:]}, key='C18:deep')
+        cfgs = [(1, 3), (2, 3), (3, 3), (4, 2)] if not run.thorough else [(1, 4), (2, 4), (3, 3), (3, 4), (4, 3), (5, 2), (6, 2)]
         for depth, ups in cfgs:
             stubs.PARAMS['depth'], stubs.PARAMS['updates'] = depth, ups
             label = '%s[depth=%d,updates=%d]' % (e, depth, ups)
